@@ -19,7 +19,7 @@ RULE = ("cases: random recipes (all connectives, depth<=5, DAG sharing, integer 
         "plus double negation; every nested negate() call is judged too. non-trivial: the negated node has >=1 "
         "compound child and both truth values occurred among the judged assignments; distinct by canonical shape digest"
         ' Also: hostile twins, aliases, the bounded sweep of small formulas.')
-BUDGET = {"quick": (12, 200, 90), "thorough": (16, 2200, 1200)}
+BUDGET = {"quick": (12, 400, 90), "thorough": (16, 2200, 1200)}
 PYTEST = True     # thorough tier also runs the repository's own tests under these monitors
 MANDATORY = ["judged:complement", "judged:form", "judged:id-kept", "contract:AtLeast.negate", "contract:Not.__new__"]
 ASSUMPTIONS = ["the original's truth value is the reference truth function on its id graph (C03 checks that the library agrees)"]
